@@ -146,12 +146,12 @@ func c02parseElem(s string) c02Elem {
 // ---------------------------------------------------------------- getters with scripted faults
 
 type c02GF struct {
-	t              int
-	hash           []byte
-	local, remote  []byte
-	verdict        byte
-	gfail, pfail   bool
-	src            *types.Header
+	t             int
+	hash          []byte
+	local, remote []byte
+	verdict       byte
+	gfail, pfail  bool
+	src           *types.Header
 }
 
 func b01(b bool) int {
@@ -354,7 +354,8 @@ func (n *c02Net) runLoop(elems []c02Elem) {
 
 // runDrop: all 100 workers of the loop's pool are kept busy by a validator that waits; the element that arrives then
 // is dropped by the loop ("submit to ants pool failed"): never validated, never stored, never gossiped.
-//   drop <elem> | ok <puts>,<gossip>
+//
+//	drop <elem> | ok <puts>,<gossip>
 func (n *c02Net) runDrop(el c02Elem) {
 	n.a.st.reset()
 	n.drainEvents()
@@ -411,7 +412,8 @@ func (n *c02Net) runDrop(el c02Elem) {
 // ---------------------------------------------------------------- the oracle over the node's REAL JSON-RPC API
 // ValidationOracle -> portal_historyGetContent -> history.API.HistoryGetContent -> PortalProtocolAPI.RecursiveFindContent
 // (local store, else ContentLookup) on node a; the header bytes are wherever the harness put them:
-//   orcnet <where l|r|n> <hash> <served: n|hex> <H> | ok <hdesc> / err         l = a's own store, r = the neighbour, n = nowhere
+//
+//	orcnet <where l|r|n> <hash> <served: n|hex> <H> | ok <hdesc> / err         l = a's own store, r = the neighbour, n = nowhere
 func (n *c02Net) orcnet(where byte, hash []byte, served []byte) {
 	if n.rpcOracle == nil {
 		srv := rpc.NewServer()
